@@ -56,10 +56,11 @@ pub fn run_functions(g: &GS, names: &[String], weighted: bool, pick: usize) -> V
         Err(e) => format!("Err({:?})", e.kind),
     }));
     if names.len() >= 2 {
-        // exactly n entries, one node left out and another listed twice
+        // exactly n entries, one node left out and another listed twice - the repeat sits in the
+        // middle, with further sources after it
         let mut listed: Vec<String> = names.to_vec();
-        let last = listed.len() - 1;
-        listed[last] = listed[0].clone();
+        let mid = listed.len() / 2;
+        listed[mid] = listed[0].clone();
         out.push(("multi_source(n entries, one repeated)", match dijkstra::multi_source(g, weighted, listed, None, None, false, true) {
             Ok(m) => sp(m),
             Err(e) => format!("Err({:?})", e.kind),
@@ -296,6 +297,41 @@ pub fn run_c07(a: &Args) {
                 ctx::count("reach:nested-call");
             }
         }
+        // the first queries a graph ever receives, made by several threads at once: a second copy
+        // of the graph is built without any read-only call, and the threads start together
+        {
+            let cold = case.build_cold();
+            let readers = if light { 3 } else { 8 };
+            let barrier = std::sync::Barrier::new(readers);
+            let conc = guard("concurrent-first-use", || {
+                std::thread::scope(|s| {
+                    let hs: Vec<_> = (0..readers)
+                        .map(|_| {
+                            s.spawn(|| {
+                                barrier.wait();
+                                run_functions(&cold, &names, weighted, pick)
+                            })
+                        })
+                        .collect();
+                    hs.into_iter().map(|h| h.join()).collect::<Vec<_>>()
+                })
+            });
+            match conc {
+                Err(c) => fail("concurrent-first-use", &c.class(), c.json()),
+                Ok(all) => {
+                    for r in all {
+                        match r {
+                            Ok(got) => {
+                                ctx::eval(reference.len() as u64);
+                                compare("concurrent-first-use-of-a-fresh-graph", &got, json!({"readers": readers}));
+                            }
+                            Err(_) => fail("concurrent-first-use", "reader-thread-panicked", json!(null)),
+                        }
+                    }
+                    ctx::count("reach:concurrent-first-use-of-a-fresh-graph");
+                }
+            }
+        }
         // concurrent read-only use of one graph from several plain threads
         let readers = if light { 3 } else { 6 };
         hooks::par_set_delay(mix(a.seed ^ 0x77, idx), 80);
@@ -323,6 +359,75 @@ pub fn run_c07(a: &Args) {
         }
         ctx::nontrivial(case.hash());
         ctx::sample_tagged(&format!("{}-{:?}", case.specs.kind_label(), case.wclass), || json!({"n": case.n(), "family": case.family, "kind": case.specs.kind_label(), "wclass": format!("{:?}", case.wclass), "edges": case.edges.len()}));
+    }
+    // a large graph (tens of thousands of edges) whose very first queries come from eight threads
+    // released together: anything computed lazily over the whole edge list is computed while
+    // the other threads are already asking
+    for k in 0..(if light { 1u64 } else if a.thorough { 4 } else { 2 }) {
+        if !ctx::mine(total + k) {
+            continue;
+        }
+        let mut rng = Rng::new(mix(a.seed ^ 0xC07_C01D, k));
+        let n = 300 + rng.below(200);
+        let m = if light { 20_000 } else { 60_000 };
+        let directed = k % 2 == 0;
+        let names: Vec<String> = (0..n).map(|i| format!("c{:03}", i)).collect();
+        let edges: Vec<(usize, usize, f64)> = (0..m).map(|_| (rng.below(n), rng.below(n), 0.5 + rng.f64())).filter(|e| e.0 != e.1).collect();
+        ctx::case_desc(json!({"family": "large-cold-graph", "n": n, "edges": edges.len(), "directed": directed}));
+        let reps = if light { 3 } else if a.thorough { 60 } else { 12 };
+        let kind = if directed { "directed-multi" } else { "undirected-multi" };
+        for rep in 0..reps {
+            let mut g: GS = graphrs::Graph::new(Specs::kind(directed, true, false).to_real());
+            for nm in &names {
+                g.add_node(graphrs::Node::from_name(nm.clone()));
+            }
+            for (u, v, w) in &edges {
+                g.add_edge(std::sync::Arc::new(graphrs::Edge { u: names[*u].clone(), v: names[*v].clone(), attributes: None, weight: *w })).expect("multi-edge specs accept every edge");
+            }
+            let readers = 8usize;
+            let barrier = std::sync::Barrier::new(readers);
+            let srcs: Vec<String> = (0..readers).map(|i| names[(i * 37 + rep) % n].clone()).collect();
+            let res = guard("concurrent-first-use", || {
+                std::thread::scope(|s| {
+                    let hs: Vec<_> = (0..readers)
+                        .map(|i| {
+                            let (g, barrier, src) = (&g, &barrier, srcs[i].clone());
+                            s.spawn(move || {
+                                barrier.wait();
+                                let a = dijkstra::single_source(g, true, src.clone(), None, None, true, false).map(|m| m.len()).map_err(|e| format!("{:?}", e.kind));
+                                let b = dijkstra::multi_source(g, true, vec![src], None, Some(1.0), false, false).map(|m| m.values().map(|r| r.len()).sum::<usize>()).unwrap_or(usize::MAX);
+                                (a, b)
+                            })
+                        })
+                        .collect();
+                    hs.into_iter().map(|h| h.join()).collect::<Vec<_>>()
+                })
+            });
+            ctx::eval(readers as u64 * 2);
+            match res {
+                Err(c) => ctx::violation(&format!("C07|concurrent-first-use|{}|{}", c.class(), kind), "concurrent first use panicked", c.json()),
+                Ok(all) => {
+                    for (i, r) in all.into_iter().enumerate() {
+                        // the same two calls afterwards, alone
+                        let want_a = dijkstra::single_source(&g, true, srcs[i].clone(), None, None, true, false).map(|m| m.len()).map_err(|e| format!("{:?}", e.kind));
+                        let want_b = dijkstra::multi_source(&g, true, vec![srcs[i].clone()], None, Some(1.0), false, false).map(|m| m.values().map(|r| r.len()).sum::<usize>()).unwrap_or(usize::MAX);
+                        match r {
+                            Ok((a1, b1)) if a1 == want_a && b1 == want_b => {}
+                            Ok((a1, b1)) => {
+                                ctx::violation(
+                                    &format!("C07|single_source|differs-from-single-threaded:concurrent-first-use-of-a-fresh-graph|{}", kind),
+                                    "the first queries on a fresh graph, made by several threads at once, differ from the same queries made alone",
+                                    json!({"source": srcs[i], "concurrent": format!("{:?}", (a1, b1)), "alone": format!("{:?}", (&want_a, want_b)), "repetition": rep, "n": n, "edges": edges.len()}),
+                                );
+                            }
+                            Err(_) => ctx::violation(&format!("C07|concurrent-first-use|reader-thread-panicked|{}", kind), "reader thread panicked", json!(null)),
+                        }
+                    }
+                }
+            }
+            ctx::count("reach:concurrent-first-use-of-a-large-fresh-graph");
+        }
+        ctx::nontrivial(mix(0xC01D, k));
     }
     let mut sched = BTreeMap::new();
     for (k, v) in &assignments {
